@@ -402,6 +402,10 @@ def run(ctx) -> list[Inst]:
                     if isinstance(t, ast.Call) and isinstance(t.func, ast.Attribute) and t.func.attr == 'get' \
                             and isinstance(t.func.value, ast.Name) and t.func.value.id == memon:
                         tested = True
+            if isinstance(n, ast.Try) and any('KeyError' in stmt_text(h.type) for h in n.handlers if h.type is not None) \
+                    and any(isinstance(b, ast.Return) and b.value is not None and _memo_index(b.value, memon) == selfn
+                            for b in n.body):
+                tested = True        # try: return memo[id(self)] / except KeyError: the lookup is the test
             if isinstance(n, ast.Return) and n.value is not None and (
                     _memo_index(n.value, memon) == selfn or
                     (isinstance(n.value, ast.Name) and any(
@@ -410,7 +414,7 @@ def run(ctx) -> list[Inst]:
                         and a.value.func.attr == 'get' and isinstance(a.value.func.value, ast.Name)
                         and a.value.func.value.id == memon for a in own_nodes(f.node)))):
                 returned = True
-            if isinstance(n, ast.Assign) and len(n.targets) == 1 and _memo_index(n.targets[0], memon) == selfn:
+            if isinstance(n, ast.Assign) and any(_memo_index(t, memon) == selfn for t in n.targets):
                 has_store = True
         has_lookup = tested and returned
         if cname != 'AttackGraph':
